@@ -396,7 +396,41 @@ def module_full_alt(name='FULL-MIB', arc=4242):
     return ls
 
 
+def module_quirky(name='QUIRK-MIB', arc=4545):
+    """Sloppy but accepted constructs: objects listed twice, symbols imported twice, the same module in two import
+    clauses, repeated enumeration of groups -- the rarely taken de-duplication paths."""
+    n = name.split('-')[0].lower()
+    ls = [L('head', '%s DEFINITIONS ::= BEGIN' % name),
+          L('decl', 'IMPORTS'),
+          L('code', '    MODULE-IDENTITY, OBJECT-TYPE, NOTIFICATION-TYPE, Integer32, enterprises, OBJECT-TYPE, Integer32 FROM SNMPv2-SMI'),
+          L('code', '    MODULE-COMPLIANCE, OBJECT-GROUP, NOTIFICATION-GROUP FROM SNMPv2-CONF'),
+          L('code', '    Counter32, Gauge32, Counter32 FROM SNMPv2-SMI'),
+          L('code', '    DisplayString, TruthValue, DisplayString FROM SNMPv2-TC;'),
+          L('decl', '%sMIB MODULE-IDENTITY' % n), L('code', '    LAST-UPDATED "202001010000Z"'), L('code', '    ORGANIZATION "o"'), L('code', '    CONTACT-INFO "c"'),
+          L('code', '    DESCRIPTION "d"'), L('code', '    REVISION "202001010000Z"'), L('code', '    DESCRIPTION "r"'), L('code', '    ::= { enterprises %d }' % arc)]
+    objs = []
+    for i, nm in enumerate(['zeta', 'alpha', 'mid', 'beta', 'omega', 'gamma']):
+        o = '%s%s' % (n, nm.capitalize())
+        objs.append(o)
+        ls += [L('decl', '%s OBJECT-TYPE' % o), L('code', '    SYNTAX %s' % ['Integer32', 'Counter32', 'Gauge32', 'DisplayString', 'TruthValue', 'Integer32'][i]),
+               L('code', '    MAX-ACCESS read-only'), L('code', '    STATUS current'), L('code', '    DESCRIPTION "o"'), L('code', '    ::= { %sMIB %d }' % (n, i + 1))]
+    dup = objs + [objs[2], objs[0], objs[4]]
+    ls += [L('decl', '%sEvent NOTIFICATION-TYPE' % n), L('code', '    OBJECTS { %s }' % ', '.join(dup)), L('code', '    STATUS current'), L('code', '    DESCRIPTION "n"'),
+           L('code', '    ::= { %sMIB 20 }' % n),
+           L('decl', '%sEvent2 NOTIFICATION-TYPE' % n), L('code', '    OBJECTS { %s }' % ', '.join(objs[:2])), L('code', '    STATUS current'), L('code', '    DESCRIPTION "n"'),
+           L('code', '    ::= { %sMIB 21 }' % n),
+           L('decl', '%sGroup OBJECT-GROUP' % n), L('code', '    OBJECTS { %s }' % ', '.join(dup[::-1])), L('code', '    STATUS current'), L('code', '    DESCRIPTION "g"'),
+           L('code', '    ::= { %sMIB 30 }' % n),
+           L('decl', '%sNGroup NOTIFICATION-GROUP' % n), L('code', '    NOTIFICATIONS { %sEvent, %sEvent2, %sEvent }' % (n, n, n)), L('code', '    STATUS current'), L('code', '    DESCRIPTION "g"'),
+           L('code', '    ::= { %sMIB 31 }' % n),
+           L('decl', '%sCompl MODULE-COMPLIANCE' % n), L('code', '    STATUS current'), L('code', '    DESCRIPTION "c"'), L('code', '    MODULE'),
+           L('code', '        MANDATORY-GROUPS { %sGroup, %sNGroup, %sGroup }' % (n, n, n)), L('code', '    ::= { %sMIB 40 }' % n),
+           L('end', 'END')]
+    return ls
+
+
 CORPUS_MODULES = {
+    'quirky': lambda: ('QUIRK-MIB', text_of(module_quirky('QUIRK-MIB', 4545))),
     'full': lambda: ('FULL-MIB', text_of(module_full('FULL-MIB', 4242))),
     'fullalt': lambda: ('FULL-MIB', text_of(module_full_alt('FULL-MIB', 4242))),
     'v1': lambda: ('OLD-MIB', text_of(module_v1('OLD-MIB', 4343))),
